@@ -892,3 +892,107 @@ Theorem C15_glyf_cmap_writers_declared :
   cmw_max_segments = 32767 /\ cmr_f0_entries = 256 /\ cmr_f0_min_length = 262 /\ cmr_f4_header_words = (8, 4).
 Proof. vm_compute. repeat split; reflexivity. Qed.
 Print Assumptions C15_glyf_cmap_writers_declared.
+
+(* ===== cvt, CFF custom charsets, FDSelect, custom encodings (Model/CffSets.v) *)
+From AV Require Import Model.CffSets Proofs.CffSetsProofs.
+
+(* cvt: every list of FWORDs reads back from a table of twice as many bytes; an odd length is refused *)
+Theorem C15_cvt_roundtrip : forall vs rest c,
+  Forall i16_ok vs -> cgood c -> at_bytes c (cvt_write vs ++ rest) ->
+  exists c', cvt_read c (2 * len vs) = Ok (vs, c') /\ advanced c c' rest.
+Proof. exact cvt_roundtrip. Qed.
+Print Assumptions C15_cvt_roundtrip.
+
+Theorem C15_cvt_odd_length_refused : forall c l, l mod 2 <> 0 -> cvt_read c l = Err BadValue.
+Proof. exact cvt_odd_length_refused. Qed.
+Print Assumptions C15_cvt_odd_length_refused.
+
+Theorem C15_cvt_write_length : forall vs, len (cvt_write vs) = 2 * len vs.
+Proof. exact cvt_write_length. Qed.
+Print Assumptions C15_cvt_write_length.
+
+(* charsets: format 0 with n_glyphs - 1 SIDs, formats 1 / 2 with ranges whose last range (and no
+   earlier one) completes the n_glyphs - 1 glyphs — read_range_array's loop stops exactly there *)
+Theorem C15_charset_roundtrip : forall cs n_glyphs rest c,
+  charset_ok cs n_glyphs -> cgood c -> at_bytes c (charset_write cs ++ rest) ->
+  exists c', charset_read c n_glyphs = Ok (cs, c') /\ advanced c c' rest.
+Proof. exact charset_roundtrip. Qed.
+Print Assumptions C15_charset_roundtrip.
+
+Example charset_ok_somewhere :
+  charset_ok (1, [[391; 2]; [1000; 0]; [5; 255]]) 261 /\ charset_ok (2, [[1; 65535]]) 40000 /\ charset_ok (0, [[7]; [9]]) 3 /\
+  charset_ok (2, []) 1.
+Proof.
+  unfold charset_ok. cbn [fst snd]. split; [|split; [|split]].
+  - split; [lia|]. split; [repeat constructor|]. right. split; [auto|]. cbv [covers range_len nthZ nth Z.to_nat Pos.to_nat Pos.iter_op Init.Nat.add]. lia.
+  - split; [lia|]. split; [repeat constructor|]. right. split; [auto|]. cbv [covers range_len nthZ nth Z.to_nat Pos.to_nat Pos.iter_op Init.Nat.add]. lia.
+  - split; [lia|]. split; [repeat constructor|]. left. split; reflexivity.
+  - split; [lia|]. split; [constructor|]. right. split; [auto|]. cbv [covers range_len nthZ nth Z.to_nat Pos.to_nat Pos.iter_op Init.Nat.add]. lia.
+Qed.
+
+(* the general statement about the peeking loop (any record type with the count in field 1) *)
+Theorem C15_read_range_array_roundtrip : forall t recs n rest c,
+  (0 <? ty_size t) && (ty_size t <? 1000) = true ->
+  Forall (rec_ok t) recs -> covers recs 0 n ->
+  cgood c -> at_bytes c (RecordProofs.enc_recs t recs ++ rest) ->
+  exists c', read_range_array t c n = Ok (recs, c') /\ advanced c c' rest.
+Proof. exact read_range_array_roundtrip. Qed.
+Print Assumptions C15_read_range_array_roundtrip.
+
+(* … and its limit: ranges after the covering one are written but not read back (the charset writer
+   has no check; `CustomCharset` values built by the subsetter always cover exactly) *)
+Theorem C15_charset_ranges_excess_dropped : forall t recs extra n rest c,
+  (0 <? ty_size t) && (ty_size t <? 1000) = true ->
+  Forall (rec_ok t) recs -> covers recs 0 n ->
+  cgood c -> at_bytes c (RecordProofs.enc_recs t (recs ++ extra) ++ rest) ->
+  exists c', read_range_array t c n = Ok (recs, c') /\ advanced c c' (RecordProofs.enc_recs t extra ++ rest).
+Proof. exact charset_ranges_excess_dropped. Qed.
+Print Assumptions C15_charset_ranges_excess_dropped.
+
+Theorem C15_charset_zero_glyphs_refused : forall c, charset_read c 0 = Err BadValue.
+Proof. exact charset_zero_glyphs_refused. Qed.
+Print Assumptions C15_charset_zero_glyphs_refused.
+
+(* FDSelect formats 0 and 3 *)
+Theorem C15_fdselect_roundtrip : forall f n_glyphs b rest c,
+  fdselect_ok f n_glyphs -> fdselect_write f = Ok b -> cgood c -> at_bytes c (b ++ rest) ->
+  exists c', fdselect_read c n_glyphs = Ok (f, c') /\ advanced c c' rest.
+Proof. exact fdselect_roundtrip. Qed.
+Print Assumptions C15_fdselect_roundtrip.
+
+Example fdselect_ok_somewhere :
+  fdselect_ok {| fs_fmt := 3; fs_recs := [[0; 1]; [12; 0]]; fs_sentinel := 40 |} 40 /\
+  fdselect_write {| fs_fmt := 3; fs_recs := [[0; 1]; [12; 0]]; fs_sentinel := 40 |} = Ok [3; 0; 2; 0; 0; 1; 0; 12; 0; 0; 40].
+Proof. split; [right; repeat split; repeat constructor | vm_compute; reflexivity]. Qed.
+
+Theorem C15_too_wide_refused_fdselect : forall f,
+  fs_fmt f <> 0 ->
+  match fdselect_write f with
+  | Ok b => len (fs_recs f) <= 65535
+  | Err e => e = BadValue /\ 65535 < len (fs_recs f)
+  | _ => False
+  end.
+Proof. exact fdselect_too_many_ranges_refused. Qed.
+Print Assumptions C15_too_wide_refused_fdselect.
+
+(* custom encodings, formats 0 and 1; a count above 255 is refused, supplements are NotImplemented *)
+Theorem C15_encoding_roundtrip : forall e b rest c,
+  encoding_ok e -> encoding_write e = Ok b -> cgood c -> at_bytes c (b ++ rest) ->
+  exists c', encoding_read c = Ok (e, c') /\ advanced c c' rest.
+Proof. exact encoding_roundtrip. Qed.
+Print Assumptions C15_encoding_roundtrip.
+
+Theorem C15_too_wide_refused_encoding : forall e,
+  match encoding_write e with
+  | Ok b => len (snd e) <= 255
+  | Err x => x = BadValue /\ 255 < len (snd e)
+  | _ => False
+  end.
+Proof. exact encoding_too_many_refused. Qed.
+Print Assumptions C15_too_wide_refused_encoding.
+
+Theorem C15_encoding_supplement_not_implemented : forall c fmt rest,
+  cgood c -> 128 <= fmt <= 255 -> at_bytes c (write_prim PU8 fmt ++ rest) ->
+  encoding_read c = Err NotImplemented.
+Proof. exact encoding_supplement_not_implemented. Qed.
+Print Assumptions C15_encoding_supplement_not_implemented.
